@@ -812,3 +812,58 @@ def is_iteration_test(ctx, sbb):
                         if pl is not None:
                             work.append(pl.local)
     return False
+
+
+# --- error discipline: no Result is silently dropped ------------------------------------------------
+DROPPED_RESULT_OK = {
+    # (function, callee) pairs read and found harmless; everything else is reported
+    ("<tough::http::HttpTransportBuilder as core::default::Default>::default", "rustls::crypto::CryptoProvider::install_default"):
+        "installing the process-wide crypto provider fails only if one is installed already",
+    ("tuftool::build_targets", "tokio::task::blocking::spawn_blocking"):
+        "detached directory walker whose closure always returns Ok(()); its entries travel through the channel",
+}
+
+
+def no_result_dropped(chk, prog, rule, prefixes):
+    """every value of a type containing Result<..> that a function in scope computes is looked at
+    (matched, `?`-ed, returned, passed on) — `let _ = step();`, `step().ok();`, a `join_all` whose
+    Vec<Result> is dropped, are reported: an error of a storage / signing / network step that nobody
+    sees turns 'the operation failed' into 'the operation reported success'"""
+    n_fn = n_val = 0
+    for b in prog.bodies.values():
+        if "/.cargo/" in b.file or "/tests/" in b.file:
+            continue
+        if not any(b.path.startswith(p) or b.path.startswith("<" + p) or (" as " + p) in b.path for p in prefixes):
+            continue
+        ctx = ctx_of(prog, b.path)
+        n_fn += 1
+        uses = ctx.tracker.uses.by_local
+        for l, info in enumerate(b.locals):
+            if l == 0 or l <= b.argc:
+                continue
+            ty = info["ty"]
+            if "result::Result<" not in ty or ty.startswith("&"):
+                continue
+            defs = [d_ for d_ in ctx.origins.defs.get(l, [])
+                    if not (d_[0] == "call" and d_[3].is_call_to("core::ops::try_trait::FromResidual::from_residual"))]
+            if not defs:
+                continue
+            n_val += 1
+            if uses.get(l):
+                continue
+            k, bb, idx, obj = defs[0]
+            callee = strip_generics(obj.resolved or obj.callee or "?") if k == "call" else "value"
+            if (root_fn(b.path), callee) in DROPPED_RESULT_OK:
+                continue
+            chk.fail(rule, short_fn(b.path), "result-dropped:%s" % callee.split("::")[-1],
+                     "the result of %s (%s) is dropped without being looked at: a failure of that step goes unnoticed and "
+                     "the enclosing operation reports success" % (callee, ty[:80]), site_of(obj.sp))
+        # `.ok()` whose Option is then dropped
+        for bb, t in b.calls():
+            if t.is_call_to("core::result::Result::ok", "core::result::Result::err") and t.dest is not None \
+                    and not t.dest.proj and t.dest.local != 0 and not uses.get(t.dest.local):
+                chk.fail(rule, short_fn(b.path), "result-dropped:ok()",
+                         "a Result is converted with .ok()/.err() and the Option is dropped: the error is discarded",
+                         site_of(t.sp))
+    chk.ok(rule, "scope " + ",".join(prefixes), "no-result-dropped", detail="functions=%d result-typed values=%d" % (n_fn, n_val))
+    return n_fn
